@@ -2489,3 +2489,99 @@ def spec_validate_phases(fns, consts):
 
 SPECS["C03"].append(spec_validate_phases)
 SPECS["C10"].append(spec_validate_phases)
+
+
+# ------------------------------------------------------------------ C05/C02: the first trailing value index is recorded once
+
+def spec_trailing_idx_once(fns, consts):
+    """ArgMatcher::pending_values_mut and ArgMatcher::start_trailing: the index of the FIRST value after
+    `--` is recorded with `get_or_insert(raw_vals.len())` - set when still unset, never moved afterwards -
+    exactly on the paths where trailing_values is true (pending_values_mut) / a pending argument exists
+    (start_trailing); no path stores to `trailing_idx` directly."""
+    con = contracts.Contracts(fns, default_pure=True)
+    ctx = symex.Ctx(consts, con)
+    obs, enc = [], []
+
+    def add(fn, msg, pc, neg):
+        obs.append({"fn": fn.name, "block": "ret", "kind": "spec", "target": "trailing_idx_once", "msg": msg, "pc": list(pc), "neg": neg})
+
+    for fname, nargs in (("pending_values_mut", 4), ("start_trailing", 1)):
+        fn = _find(fns, "parser/arg_matcher.rs", fname)
+        tv = ("bool", ctx.sym(f"{fname}:trailing_values", "Bool"))
+        args = [("opq", "self"), ("opq", "id"), ("opq", "ident"), tv][:len(fn.params)]
+        ex = symex.Exec(ctx, fn, args)
+        ex.run(havoc_unassigned=True, cut_loops=True)
+        n = 0
+        for (pc, val), ca, env in zip(ex.returns, ex.return_callargs, ex.return_envs):
+            n += 1
+            goi = [c for c in ca if c[0] == "Option::<usize>::get_or_insert"]
+            lens = [c for c in ca if c[0] == "Vec::<OsString>::len"]
+            direct = [k for k in env if k.startswith("place:") and re.search(r"Option<usize>\)$|: std::option::Option<usize>\)$", k)]
+            shape = len(goi) <= 1 and not direct and (not goi or (len(lens) >= 1 and goi[0][1][1] == ctx.keys.get(lens[-1][2], lens[-1][2]) or (goi and lens and lens[-1][2] in goi[0][1][1]) or (goi and lens and goi[0][1][1] == f"len({lens[-1][2]})")))
+            if fname == "pending_values_mut":
+                add(fn, "the first trailing index is recorded (get_or_insert(raw_vals.len()), never a plain store) exactly when trailing_values is set", pc,
+                    "true" if not shape else (f"(not {tv[1]})" if goi else tv[1]))
+            else:
+                add(fn, "start_trailing records the first trailing index with get_or_insert(raw_vals.len()) when an argument is pending", pc, "false" if shape else "true")
+        if n == 0:
+            add(fn, f"{fname}: no return path", [], "true")
+        enc.append(_enc(fn, ex, n))
+    return ctx, obs, enc, con
+
+
+SPECS["C05"].append(spec_trailing_idx_once)
+SPECS["C02"].append(spec_trailing_idx_once)
+
+
+# ------------------------------------------------------------------ C09: a word is tested for being a subcommand only between arguments
+
+def spec_subcommand_dispatch_guard(fns, consts):
+    """One iteration of Parser::parse's token loop, entered before any `--` (trailing_values == false): the
+    token is handed to subcommand recognition at the top of the iteration - before the escape test -
+    only if subcommand_precedence_over_arg is set or the parser is NOT in the middle of collecting the
+    values of an option or of a positional (parse_state is neither Opt nor Pos); so a value of a
+    multi-value argument is never dispatched as a subcommand the line did not name."""
+    con = contracts.Contracts(fns, default_pure=True)
+    ctx = symex.Ctx(consts, con)
+    fn = _find(fns, "parser/parser.rs", "parse")
+    tv = fn.debug.get("trailing_values")
+    ps = fn.debug.get("parse_state")
+    hdr = [b for b, blk in fn.blocks.items() if any(re.search(r"= RawArgs::next\(", s) for s in blk["stmts"])]
+    if not tv or not ps or len(hdr) != 1:
+        raise Unsupported("Parser::parse: token loop / trailing_values / parse_state not found")
+    header = hdr[0]
+    nxt = re.search(r"return: (bb\d+)", [s for s in fn.blocks[header]["stmts"] if "RawArgs::next(" in s][0]).group(1)
+    sw = [s for s in fn.blocks[nxt]["stmts"] if s.startswith("switchInt")]
+    m = re.search(r"\[1: (bb\d+)", sw[0]) if sw else None
+    if not m:
+        raise Unsupported("Parser::parse: `while let Some(..)` shape not found")
+    body = m.group(1)
+    tok_local = re.match(r"^(_\d+) = RawArgs::next", [s for s in fn.blocks[header]["stmts"] if "RawArgs::next(" in s][0]).group(1)
+    ex = symex.Exec(ctx, fn, [("opq", "self"), ("opq", "matcher"), ("opq", "raw_args"), ("opq", "cursor")])
+    ex.run(start=body, stop_at=header, env={tv: ("bool", "false"), tok_local: ("opq", "next_token"), ps: ("opq", "parse_state")}, havoc_unassigned=True, cut_loops=True)
+    d = ex.typed_fresh("discr(parse_state)", "isize")[1]
+    prec = ex.typed_fresh("command::Command::is_subcommand_precedence_over_arg_set(self.0)", "bool")[1]
+    obs, n_top = [], 0
+    paths = [(pc, env.get("#callargs", ())) for pc, env in ex.stops] + [(pc, ca) for (pc, _), ca in zip(ex.returns, ex.return_callargs)] + [(pc, env.get("#callargs", ())) for pc, env in ex.cuts]
+    seen = set()
+    for pc, ca in paths:
+        cn = [c[0] for c in ca]
+        esc = [i for i, x in enumerate(cn) if x.endswith("::is_escape")]
+        first = [i for i, x in enumerate(cn) if x.endswith("::possible_subcommand") and (not esc or i < esc[0])]
+        if not first:
+            continue
+        key = tuple(c for c in pc if re.search(rf"(?<!\w)({re.escape(d)}|{re.escape(prec)})(?!\w)", c))
+        if key in seen:
+            continue
+        seen.add(key)
+        n_top += 1
+        tok = "next_token" in ca[first[0]][1][1]
+        obs.append({"fn": fn.name, "block": "body", "kind": "spec", "target": "subcommand_dispatch_guard",
+                    "msg": "the token is tested for being a subcommand (before the escape test) only with subcommand precedence or outside an option's / positional's values",
+                    "pc": list(key), "neg": "true" if not tok else f"(and (not {prec}) (or (= {d} (_ bv1 64)) (= {d} (_ bv2 64))))"})
+    if n_top == 0:
+        obs.append({"fn": fn.name, "block": "shape", "kind": "spec", "target": "subcommand_dispatch_guard", "msg": "Parser::parse: no path tests the token for being a subcommand before the escape test", "pc": [], "neg": "true"})
+    return ctx, obs, [{"function": fn.name + f" [one loop iteration {body}..{header}, trailing_values = false]", "mir_line": fn.line, "mir_blocks": len(fn.blocks), "obligations": len(obs), "return_paths": len(paths)}], con
+
+
+SPECS["C09"].append(spec_subcommand_dispatch_guard)
